@@ -406,10 +406,18 @@ impl Stream for StreamBuilder {
                                     // TODO can probably make this more efficient
                                     let (before, replaced) =
                                         this.sync_buf.split_at(start);
-                                    let (_, after) = replaced
+                                    let (fallback, after) = replaced
                                         .split_at(end - start + closing.len());
                                     let mut buf = String::new();
                                     buf.push_str(before);
+                                    if !replace {
+                                        // nothing replaces the fallback: keep it,
+                                        // only its markers go (as the script does)
+                                        buf.push_str(
+                                            &fallback[opening.len()
+                                                ..fallback.len() - closing.len()],
+                                        );
+                                    }
 
                                     let mut held_chunks = VecDeque::new();
                                     for chunk in chunks_iter {
